@@ -244,6 +244,18 @@ public:
      * @return @c true if the node should be parsed, @c false otherwise.
      */
     bool parseNode(const XmlNodePtr &node, const char *name);
+
+    /**
+     * @brief Report a construct that is dropped when transforming CellML 1.0 or CellML 1.1 as a message.
+     *
+     * CellML 1.0 and CellML 1.1 documents may carry attributes and elements (metadata, extension
+     * elements, the offset of a unit) which have no counterpart in CellML 2.0.  When transforming
+     * such a document they are dropped, which is reported as a message and not as an error.
+     * Does nothing when parsing a CellML 2.0 document.
+     *
+     * @param issue The issue describing the dropped construct.
+     */
+    void downgradeWhenTransforming(const IssuePtr &issue) const;
 };
 
 Parser::ParserImpl *Parser::pFunc()
@@ -820,6 +832,7 @@ void Parser::ParserImpl::loadUnits(const UnitsPtr &units, const XmlNodePtr &node
             issue->mPimpl->setDescription("Units '" + units->name() + "' has an invalid child element '" + childNode->name() + "'.");
             issue->mPimpl->mItem->mPimpl->setUnits(units);
             issue->mPimpl->setReferenceRule(Issue::ReferenceRule::XML_UNEXPECTED_ELEMENT);
+            downgradeWhenTransforming(issue);
             addIssue(issue);
         }
         childNode = childNode->next();
@@ -853,6 +866,7 @@ void Parser::ParserImpl::loadUnit(const UnitsPtr &units, const XmlNodePtr &node)
             issue->mPimpl->setDescription("Unit referencing '" + node->attribute("units") + "' in units '" + units->name() + "' has an invalid child element '" + childNode->name() + "'.");
             issue->mPimpl->mItem->mPimpl->setUnits(units);
             issue->mPimpl->setReferenceRule(Issue::ReferenceRule::XML_UNEXPECTED_ELEMENT);
+            downgradeWhenTransforming(issue);
             addIssue(issue);
         }
         childNode = childNode->next();
@@ -913,6 +927,7 @@ void Parser::ParserImpl::loadUnit(const UnitsPtr &units, const XmlNodePtr &node)
             issue->mPimpl->setDescription("Unit referencing '" + node->attribute("units") + "' in units '" + units->name() + "' has an invalid attribute '" + attribute->name() + "'.");
             issue->mPimpl->mItem->mPimpl->setUnits(units);
             issue->mPimpl->setReferenceRule(Issue::ReferenceRule::UNIT_ATTRIBUTE_OPTIONAL);
+            downgradeWhenTransforming(issue);
             addIssue(issue);
         }
         attribute = attribute->next();
@@ -1216,6 +1231,7 @@ void Parser::ParserImpl::loadConnection(const ModelPtr &model, const XmlNodePtr 
                 issue->mPimpl->setDescription("Connection in model '" + model->name() + "' has an invalid child element '" + grandchildNode->name() + "' of element '" + childNode->name() + "'.");
                 issue->mPimpl->setReferenceRule(Issue::ReferenceRule::XML_UNEXPECTED_ELEMENT);
                 issue->mPimpl->mItem->mPimpl->setModel(model);
+                downgradeWhenTransforming(issue);
                 addIssue(issue);
             }
             grandchildNode = grandchildNode->next();
@@ -1242,6 +1258,7 @@ void Parser::ParserImpl::loadConnection(const ModelPtr &model, const XmlNodePtr 
                     issue->mPimpl->setDescription("Connection in model '" + model->name() + "' has an invalid map_variables attribute '" + childAttribute->name() + "'.");
                     issue->mPimpl->setReferenceRule(Issue::ReferenceRule::MAP_VARIABLES_ELEMENT);
                     issue->mPimpl->mItem->mPimpl->setModel(model);
+                    downgradeWhenTransforming(issue);
                     addIssue(issue);
                 }
                 childAttribute = childAttribute->next();
@@ -1466,6 +1483,7 @@ ComponentPtr Parser::ParserImpl::loadComponentRef(const ModelPtr &model, const X
             issue->mPimpl->setDescription("Encapsulation in model '" + model->name() + "' has an invalid component_ref attribute '" + attribute->name() + "'.");
             issue->mPimpl->mItem->mPimpl->setEncapsulation(model);
             issue->mPimpl->setReferenceRule(Issue::ReferenceRule::COMPONENT_REF_ELEMENT);
+            downgradeWhenTransforming(issue);
             addIssue(issue);
         }
         attribute = attribute->next();
@@ -1506,6 +1524,7 @@ ComponentPtr Parser::ParserImpl::loadComponentRef(const ModelPtr &model, const X
             issue->mPimpl->setDescription("Encapsulation in model '" + model->name() + "' has an invalid child element '" + childComponentNode->name() + "'.");
             issue->mPimpl->mItem->mPimpl->setEncapsulation(model);
             issue->mPimpl->setReferenceRule(Issue::ReferenceRule::COMPONENT_REF_CHILD);
+            downgradeWhenTransforming(issue);
             addIssue(issue);
         }
 
@@ -1566,6 +1585,7 @@ void Parser::ParserImpl::loadEncapsulation(const ModelPtr &model, const XmlNodeP
             issue->mPimpl->setDescription("Encapsulation in model '" + model->name() + "' has an invalid child element '" + componentRefNode->name() + "'.");
             issue->mPimpl->mItem->mPimpl->setEncapsulation(model);
             issue->mPimpl->setReferenceRule(Issue::ReferenceRule::ENCAPSULATION_CHILD);
+            downgradeWhenTransforming(issue);
             addIssue(issue);
         }
 
@@ -1615,6 +1635,7 @@ void Parser::ParserImpl::loadImport(ImportSourcePtr &importSource, const ModelPt
             issue->mPimpl->setDescription("Import from '" + node->attribute("href") + "' has an invalid attribute '" + attribute->name() + "'.");
             issue->mPimpl->mItem->mPimpl->setImportSource(importSource);
             issue->mPimpl->setReferenceRule(Issue::ReferenceRule::IMPORT_ELEMENT);
+            downgradeWhenTransforming(issue);
             addIssue(issue);
         }
         attribute = attribute->next();
@@ -1662,6 +1683,7 @@ void Parser::ParserImpl::loadImport(ImportSourcePtr &importSource, const ModelPt
                     issue->mPimpl->setDescription("Import of component '" + childNode->attribute("name") + "' from '" + node->attribute("href") + "' has an invalid attribute '" + childAttribute->name() + "'.");
                     issue->mPimpl->mItem->mPimpl->setImportSource(importSource);
                     issue->mPimpl->setReferenceRule(Issue::ReferenceRule::IMPORT_COMPONENT_ELEMENT);
+                    downgradeWhenTransforming(issue);
                     addIssue(issue);
                 }
                 childAttribute = childAttribute->next();
@@ -1694,6 +1716,7 @@ void Parser::ParserImpl::loadImport(ImportSourcePtr &importSource, const ModelPt
                     issue->mPimpl->setDescription("Import of units '" + childNode->attribute("name") + "' from '" + node->attribute("href") + "' has an invalid attribute '" + childAttribute->name() + "'.");
                     issue->mPimpl->mItem->mPimpl->setImportSource(importSource);
                     issue->mPimpl->setReferenceRule(Issue::ReferenceRule::IMPORT_UNITS_ELEMENT);
+                    downgradeWhenTransforming(issue);
                     addIssue(issue);
                 }
                 childAttribute = childAttribute->next();
@@ -1801,6 +1824,14 @@ void Parser::ParserImpl::loadResetChild(const std::string &childType, const Rese
             addIssue(issue);
         }
         mathNode = mathNode->next();
+    }
+}
+
+void Parser::ParserImpl::downgradeWhenTransforming(const IssuePtr &issue) const
+{
+    if (mParsing1XVersion) {
+        issue->mPimpl->setLevel(Issue::Level::MESSAGE);
+        issue->mPimpl->setReferenceRule(Issue::ReferenceRule::UNDEFINED);
     }
 }
 
